@@ -61,6 +61,9 @@ def make_setup(case):
     fdt = "float32" if pdt == "float32" else rnd.choice(["float32", "float64"])
     gs = rnd.choice([1e-2, 1.0, 1.0])
     cfg = G.rand_config(rnd, grad_scale=gs, allow_iterative=False, dtype_pair=(pdt, fdt), well_conditioned=True, max_dim_choices=(2, 3, 4, 5, 1024))
+    from .c06 import _tame
+
+    _tame(cfg)
     min_order = 1
     for _ in range(200):
         shapes = G.rand_shapes(rnd, n_params=rnd.randint(2, 5), max_order=4, max_numel=150, min_order=min_order)
@@ -266,7 +269,13 @@ def run_sharded(case, prop_id):
     desc = {k: S[k] for k in ("mode", "R", "S", "G", "comm", "communicate_params", "cfg", "shapes", "ranges", "cut_kind", "presence_kind", "presence", "T")}
     for il in range(case["interleavings"]):
         world = ranksim.World(W, interleave_seed=hash((tuple(map(str, case["seed"])), il)) & 0xFFFFFF)
-        results = world.run(lambda rank, w: rank_program(ds, torch, S, case["seed"], rank, w))
+        from ..common import KernelObserver
+
+        with KernelObserver() as kobs:
+            results = world.run(lambda rank, w: rank_program(ds, torch, S, case["seed"], rank, w))
+        if world.errors and kobs.nonfinite_from_finite and any(type(e[0]).__name__ == "PreconditionerValueError" for e in world.errors.values()):
+            counters["aborted_lapack_returned_nonfinite"] = counters.get("aborted_lapack_returned_nonfinite", 0) + 1
+            continue
         counters["evals"] += 1
         counters["collectives_logged"] += world.n_collectives()
         counters["group_creations_logged"] += sum(len(c) for c in world.creations.values())
